@@ -1020,4 +1020,537 @@ theorem interGo_at_line_start (i : Nat) (nl : Bool) : ∀ (ts : List Trivia) (ac
       simp only [hi, Bool.false_eq_true, if_false, hemp, hacc, Bool.not_false, Bool.not_true, Bool.and_false]
       rw [hrest _ (endsWithNL_concat _ _)]; simp [itemText]
 
+
+/-! ### strip -/
+
+/-- no white space at either end -/
+def Stripped (p : Char → Bool) (s : Text) : Prop :=
+  (∀ c, s.head? = some c → p c = false) ∧ (∀ c, s.getLast? = some c → p c = false)
+
+def rstripBy (p : Char → Bool) (s : Text) : Text := (s.reverse.dropWhile p).reverse
+def stripBy (p : Char → Bool) (s : Text) : Text := rstripBy p (s.dropWhile p)
+
+theorem strip_eq_stripBy (s : Text) : strip s = stripBy isPyWhitespace s := rfl
+theorem stripSpaces_eq_stripBy (s : Text) : stripSpaces s = stripBy (· == ' ') s := rfl
+theorem rstripSpaces_eq_rstripBy (s : Text) : rstripSpaces s = rstripBy (· == ' ') s := rfl
+
+theorem head?_dropWhile_false (p : Char → Bool) (s : Text) (c : Char)
+    (h : (s.dropWhile p).head? = some c) : p c = false := by
+  have := List.head?_dropWhile_not p s
+  rw [h] at this
+  simpa using this
+
+theorem rstripBy_append_tail (p : Char → Bool) (s : Text) :
+    rstripBy p s ++ (s.reverse.takeWhile p).reverse = s := by
+  unfold rstripBy
+  rw [← List.reverse_append, List.takeWhile_append_dropWhile, List.reverse_reverse]
+
+theorem getLast?_rstripBy (p : Char → Bool) (s : Text) (c : Char)
+    (h : (rstripBy p s).getLast? = some c) : p c = false := by
+  unfold rstripBy at h
+  rw [List.getLast?_reverse] at h
+  exact head?_dropWhile_false p _ c h
+
+theorem head?_rstripBy (p : Char → Bool) (s : Text) (c : Char)
+    (h : (rstripBy p s).head? = some c) : s.head? = some c := by
+  have := rstripBy_append_tail p s
+  cases hr : rstripBy p s with
+  | nil => rw [hr] at h; simp at h
+  | cons x xs =>
+    rw [hr] at h this
+    rw [← this]; simpa using h
+
+theorem stripBy_stripped (p : Char → Bool) (s : Text) : Stripped p (stripBy p s) := by
+  constructor
+  · intro c h
+    exact head?_dropWhile_false p s c (head?_rstripBy p _ c h)
+  · intro c h
+    exact getLast?_rstripBy p _ c h
+
+theorem rstripBy_of_last (p : Char → Bool) (s : Text) (h : ∀ c, s.getLast? = some c → p c = false) :
+    rstripBy p s = s := by
+  unfold rstripBy
+  cases hr : s.reverse with
+  | nil => simp at hr; subst hr; rfl
+  | cons x xs =>
+    have : s.getLast? = some x := by rw [← List.head?_reverse, hr]; rfl
+    rw [List.dropWhile_cons_of_neg (by simp [h x this]), ← hr, List.reverse_reverse]
+
+theorem rstripBy_concat_pos (p : Char → Bool) (s : Text) (c : Char) (h : p c = true) :
+    rstripBy p (s ++ [c]) = rstripBy p s := by
+  simp [rstripBy, List.dropWhile_cons_of_pos h]
+
+theorem stripBy_pad (p : Char → Bool) (x : Text) (hx : Stripped p x) (a b : Char) (ha : p a = true)
+    (hb : p b = true) : stripBy p (a :: x ++ [b]) = x := by
+  unfold stripBy
+  rw [List.cons_append, List.dropWhile_cons_of_pos ha]
+  cases x with
+  | nil => simp [List.dropWhile_cons_of_pos hb, rstripBy]
+  | cons c x' =>
+    rw [List.cons_append, List.dropWhile_cons_of_neg (by simp [hx.1 c rfl]), ← List.cons_append,
+      rstripBy_concat_pos p _ b hb, rstripBy_of_last p _ hx.2]
+
+theorem stripBy_of_stripped (p : Char → Bool) (x : Text) (hx : Stripped p x) : stripBy p x = x := by
+  unfold stripBy
+  cases x with
+  | nil => rfl
+  | cons c x' =>
+    rw [List.dropWhile_cons_of_neg (by simp [hx.1 c rfl]), rstripBy_of_last p _ hx.2]
+
+theorem stripBy_sublist (p : Char → Bool) (s : Text) : (stripBy p s).Sublist s := by
+  unfold stripBy rstripBy
+  exact ((List.reverse_sublist.mpr (List.dropWhile_sublist p)).trans (by simp)).trans (List.dropWhile_sublist p)
+
+theorem containsNL_of_sublist {a b : Text} (h : a.Sublist b) (hb : containsNL b = false) :
+    containsNL a = false := by
+  rw [containsNL_false_iff] at hb ⊢
+  exact fun hm => hb (h.subset hm)
+
+/-- `strip` is idempotent (for Python's `isspace` class). -/
+theorem strip_idem (s : Text) : strip (strip s) = strip s :=
+  stripBy_of_stripped _ _ (stripBy_stripped _ s)
+
+
+/-! ### Comment.from_cst on line comments -/
+
+theorem fromText_shebang (col : Nat) (r : Text) :
+    Comment.fromText col ('#' :: '!' :: r) = { text := r, shebang := true } := by
+  simp [Comment.fromText, startsWith, List.isPrefixOf]
+
+theorem fromText_hash_space (col : Nat) (r : Text) :
+    Comment.fromText col ('#' :: ' ' :: r) = { text := r, spaceAfterHash := true } := by
+  simp [Comment.fromText, startsWith, List.isPrefixOf]
+
+theorem fromText_hash_other (col : Nat) (r : Text) (h1 : r.head? ≠ some '!') (h2 : r.head? ≠ some ' ') :
+    Comment.fromText col ('#' :: r) = { text := r, spaceAfterHash := false } := by
+  cases r with
+  | nil => simp [Comment.fromText, startsWith, List.isPrefixOf]
+  | cons x xs =>
+    have hx : ¬ '!' = x := fun e => h1 (by rw [e]; rfl)
+    have hy : ¬ ' ' = x := fun e => h2 (by rw [e]; rfl)
+    simp [Comment.fromText, startsWith, List.isPrefixOf, hx, hy]
+
+theorem hash_cases (r : Text) :
+    (∃ r', r = '!' :: r') ∨ (∃ r', r = ' ' :: r') ∨ (r.head? ≠ some '!' ∧ r.head? ≠ some ' ') := by
+  cases r with
+  | nil => exact Or.inr (Or.inr ⟨by simp, by simp⟩)
+  | cons x xs =>
+    by_cases hx : x = '!'
+    · exact Or.inl ⟨xs, by rw [hx]⟩
+    · by_cases hy : x = ' '
+      · exact Or.inr (Or.inl ⟨xs, by rw [hy]⟩)
+      · exact Or.inr (Or.inr ⟨by simpa using hx, by simpa using hy⟩)
+
+theorem fromText_hash_col (c1 c2 : Nat) (r : Text) :
+    Comment.fromText c1 ('#' :: r) = Comment.fromText c2 ('#' :: r) := by
+  rcases hash_cases r with ⟨r', rfl⟩ | ⟨r', rfl⟩ | ⟨h1, h2⟩
+  · rw [fromText_shebang, fromText_shebang]
+  · rw [fromText_hash_space, fromText_hash_space]
+  · rw [fromText_hash_other _ _ h1 h2, fromText_hash_other _ _ h1 h2]
+
+theorem line_comment_kind (col : Nat) (r : Text) :
+    (Comment.fromText col ('#' :: r)).kind = .line ∧ (Comment.fromText col ('#' :: r)).inline = false := by
+  rcases hash_cases r with ⟨r', rfl⟩ | ⟨r', rfl⟩ | ⟨h1, h2⟩
+  · rw [fromText_shebang]; exact ⟨rfl, rfl⟩
+  · rw [fromText_hash_space]; exact ⟨rfl, rfl⟩
+  · rw [fromText_hash_other _ _ h1 h2]; exact ⟨rfl, rfl⟩
+
+theorem line_comment_str (col : Nat) (r : Text) (hnl : containsNL r = false) :
+    (Comment.fromText col ('#' :: r)).str = if r = [' '] then ['#'] else '#' :: r := by
+  rcases hash_cases r with ⟨r', rfl⟩ | ⟨r', rfl⟩ | ⟨h1, h2⟩
+  · rw [fromText_shebang]; simp [Comment.str]
+  · rw [fromText_hash_space]
+    have hnl' : containsNL r' = false := by
+      rw [containsNL_cons] at hnl; simpa using hnl
+    rw [str_line_of_no_nl _ hnl']
+    cases r' <;> simp
+  · rw [fromText_hash_other _ _ h1 h2, str_line_of_no_nl _ hnl]
+    cases r with
+    | nil => simp
+    | cons x xs =>
+      have : x ≠ ' ' := fun e => h2 (by rw [e]; rfl)
+      simp [this]
+
+theorem line_comment_rebuild (col i : Nat) (r : Text) (hnl : containsNL r = false) :
+    (Comment.fromText col ('#' :: r)).rebuild i = spaces i ++ (if r = [' '] then ['#'] else '#' :: r) := by
+  have := line_comment_kind col r
+  rw [← line_comment_str col r hnl]
+  simp [Comment.rebuild, this.1, this.2]
+
+
+/-! ### Comment.from_cst on block comments: decomposition -/
+
+def blockDoc (t : Text) : Bool := startsWith ['/', '*', '*'] t
+def blockOpening (doc : Bool) : Text := if doc then ['/', '*', '*'] else ['/', '*']
+/-- the text between the delimiters -/
+def blockInner (t : Text) : Text :=
+  let inner0 := t.drop (if blockDoc t then 3 else 2)
+  if endsWith ['*', '/'] inner0 then inner0.take (inner0.length - 2) else inner0
+
+def mlFirst (inner : Text) : Text := stripSpaces ((splitLines inner).headD [])
+def mlRestRaw (inner : Text) : List Text :=
+  match ((splitLines inner).drop 1).reverse with
+  | [] => []
+  | l :: ls => (rstripSpaces l :: ls).reverse
+def isBlankLine (ln : Text) : Bool := (strip ln).isEmpty
+def minIndent (lines : List Text) : Nat :=
+  match (lines.filter fun ln => !isBlankLine ln).map leadingSpaces with
+  | [] => 0
+  | x :: xs => xs.foldl min x
+def mlBody (normalized : List Text) : List Text :=
+  if minIndent normalized > 0 then normalized.map (dropPrefixIf (spaces (minIndent normalized))) else normalized
+def mlNormalized (col : Nat) (inner : Text) : List Text := (mlRestRaw inner).map (dropPrefixIf (spaces col))
+
+theorem fromText_block (col : Nat) (t : Text) (h : startsWith ['/', '*'] t = true) :
+    Comment.fromText col t =
+      if containsNL (blockInner t) then
+        { text := joinLines (mlFirst (blockInner t) :: mlBody (mlNormalized col (blockInner t))),
+          kind := .block (blockDoc t) (some (minIndent (mlNormalized col (blockInner t)))) }
+      else { text := strip (blockInner t), kind := .block (blockDoc t) none } := by
+  unfold Comment.fromText
+  simp only [h, if_true]
+  rfl
+
+theorem endsWith_append_self (a p : Text) : endsWith p (a ++ p) = true := by
+  simp [endsWith]
+
+theorem take_append_sub (a p : Text) : (a ++ p).take ((a ++ p).length - p.length) = a := by
+  simp
+
+theorem blockDoc_opening (doc : Bool) (c : Char) (hc : c ≠ '*') (s : Text) :
+    blockDoc (blockOpening doc ++ c :: s) = doc := by
+  cases doc <;> simp [blockDoc, blockOpening, startsWith, List.isPrefixOf, Ne.symm hc]
+
+theorem startsWith_opening (doc : Bool) (s : Text) : startsWith ['/', '*'] (blockOpening doc ++ s) = true := by
+  cases doc <;> simp [blockOpening, startsWith, List.isPrefixOf]
+
+theorem blockInner_opening (doc : Bool) (c : Char) (hc : c ≠ '*') (s : Text) :
+    blockInner (blockOpening doc ++ c :: s ++ ['*', '/']) = c :: s := by
+  unfold blockInner
+  have hd : blockDoc (blockOpening doc ++ c :: s ++ ['*', '/']) = doc := by
+    rw [List.append_assoc]; exact blockDoc_opening doc c hc _
+  have : (blockOpening doc ++ c :: s ++ ['*', '/']).drop (if doc = true then 3 else 2) = (c :: s) ++ ['*', '/'] := by
+    cases doc <;> simp [blockOpening]
+  simp only [hd, this, endsWith_append_self, if_true]
+  exact take_append_sub (c :: s) ['*', '/']
+
+/-- single-line block comments: the rendered token is read back as the same comment -/
+theorem fromText_single_block (col : Nat) (doc : Bool) (x : Text) (hx : Stripped isPyWhitespace x)
+    (hnl : containsNL x = false) :
+    Comment.fromText col (blockOpening doc ++ [' '] ++ x ++ [' ', '*', '/']) =
+      { text := x, kind := .block doc none } := by
+  have e : blockOpening doc ++ [' '] ++ x ++ [' ', '*', '/'] = blockOpening doc ++ ' ' :: (x ++ [' ']) ++ ['*', '/'] := by
+    simp
+  rw [e, fromText_block _ _ (by rw [List.append_assoc]; exact startsWith_opening doc _),
+    blockInner_opening doc ' ' (by decide)]
+  have hnl' : containsNL (' ' :: (x ++ [' '])) = false := by
+    rw [containsNL_cons, containsNL_append, hnl]; rfl
+  simp only [hnl', Bool.false_eq_true, if_false]
+  rw [List.append_assoc, List.cons_append, blockDoc_opening doc ' ' (by decide), strip_eq_stripBy]
+  have := stripBy_pad isPyWhitespace x hx ' ' ' ' (by decide) (by decide)
+  rw [List.cons_append] at this
+  rw [this]
+
+
+/-! ### multi-line block comments: canonical form and fixed point -/
+
+def padLine (k : Nat) (ln : Text) : Text := if ln.isEmpty then [] else spaces k ++ ln
+
+structure CanonML (first : Text) (body : List Text) (m : Nat) : Prop where
+  first_nl : containsNL first = false
+  first_stripped : Stripped (· == ' ') first
+  body_ne : body ≠ []
+  body_nl : ∀ l ∈ body, containsNL l = false
+  last_rstripped : ∀ l, body.getLast? = some l → ∀ c, l.getLast? = some c → c ≠ ' '
+  indent : minIndent (body.map (padLine m)) = m
+
+theorem joinLines_flatMap (a : Text) : ∀ (L : List Text),
+    a ++ L.flatMap (fun l => '\n' :: l) = joinLines (a :: L)
+  | [] => by simp [joinLines]
+  | b :: L => by
+    rw [joinLines_cons_cons, ← joinLines_flatMap b L]; simp
+
+theorem joinLines_concat_append : ∀ (xs : List Text) (y w : Text),
+    joinLines (xs ++ [y]) ++ w = joinLines (xs ++ [y ++ w])
+  | [], y, w => by simp [joinLines]
+  | [x], y, w => by simp [joinLines]
+  | x :: x' :: xs, y, w => by
+    have := joinLines_concat_append (x' :: xs) y w
+    simp only [List.cons_append] at this ⊢
+    rw [joinLines_cons_cons, joinLines_cons_cons, List.append_assoc, List.cons_append, this]
+
+theorem containsNL_padLine (k : Nat) (l : Text) (h : containsNL l = false) : containsNL (padLine k l) = false := by
+  unfold padLine; split
+  · rfl
+  · rw [containsNL_append, containsNL_spaces, h]; rfl
+
+theorem spaces_add (a b : Nat) : spaces (a + b) = spaces a ++ spaces b := by
+  simp [spaces, List.replicate_append_replicate]
+
+theorem startsWith_append_self (p s : Text) : startsWith p (p ++ s) = true := by
+  simp [startsWith]
+
+theorem dropWhile_eq_nil_of_all (p : Char → Bool) : ∀ (l : Text), (∀ c ∈ l, p c = true) → l.dropWhile p = []
+  | [], _ => rfl
+  | x :: l, h => by
+    rw [List.dropWhile_cons_of_pos (h x List.mem_cons_self)]
+    exact dropWhile_eq_nil_of_all p l (fun c hc => h c (List.mem_cons_of_mem _ hc))
+
+theorem all_of_dropWhile_eq_nil (p : Char → Bool) : ∀ (l : Text), l.dropWhile p = [] → ∀ c ∈ l, p c = true
+  | [], _, c, hc => by simp at hc
+  | x :: l, h, c, hc => by
+    by_cases hx : p x = true
+    · rw [List.dropWhile_cons_of_pos hx] at h
+      rcases List.mem_cons.mp hc with rfl | hc
+      · exact hx
+      · exact all_of_dropWhile_eq_nil p l h c hc
+    · rw [List.dropWhile_cons_of_neg hx] at h; simp at h
+
+theorem getLast?_append_ne_nil (a b : Text) (hb : b ≠ []) : (a ++ b).getLast? = b.getLast? := by
+  cases b with
+  | nil => exact absurd rfl hb
+  | cons x xs => simp [List.getLast?_eq_some_getLast]
+
+theorem dropPrefixIf_append (p s : Text) : dropPrefixIf p (p ++ s) = s := by
+  unfold dropPrefixIf
+  cases p with
+  | nil => simp
+  | cons x xs =>
+    have := startsWith_append_self (x :: xs) s
+    simp only [List.isEmpty_cons, Bool.not_false, Bool.true_and, this, if_true]
+    simp
+
+theorem dropPrefixIf_nil (p : Text) : dropPrefixIf p [] = [] := by
+  unfold dropPrefixIf; split <;> simp
+
+theorem dropPrefixIf_padLine (i m : Nat) (l : Text) :
+    dropPrefixIf (spaces i) (padLine (i + m) l) = padLine m l := by
+  unfold padLine
+  split
+  · exact dropPrefixIf_nil _
+  · rw [spaces_add, List.append_assoc, dropPrefixIf_append]
+
+theorem dropPrefixIf_padLine_self (m : Nat) (l : Text) : dropPrefixIf (spaces m) (padLine m l) = l := by
+  unfold padLine
+  split
+  · rename_i h; rw [dropPrefixIf_nil]; simpa using h.symm
+  · exact dropPrefixIf_append _ _
+
+theorem padLine_zero (l : Text) : padLine 0 l = l := by
+  unfold padLine; split
+  · rename_i h; simpa using h.symm
+  · simp
+
+theorem rstripBy_spaces (k : Nat) : rstripBy (· == ' ') (spaces k) = [] := by
+  unfold rstripBy
+  have : (spaces k).reverse = spaces k := by simp [spaces]
+  rw [this]
+  have : (spaces k).dropWhile (· == ' ') = [] := by
+    apply dropWhile_eq_nil_of_all; intro c hc; simp [mem_spaces hc]
+  rw [this]; rfl
+
+theorem rstrip_rendered_last (k i : Nat) (bl : Text) (h : ∀ c, bl.getLast? = some c → c ≠ ' ') :
+    rstripSpaces (padLine k bl ++ (if bl.isEmpty then spaces i else [' '])) = padLine k bl := by
+  rw [rstripSpaces_eq_rstripBy]
+  cases bl with
+  | nil => simp [padLine, rstripBy_spaces]
+  | cons x xs =>
+    simp only [padLine, List.isEmpty_cons, Bool.false_eq_true, if_false]
+    rw [rstripBy_concat_pos _ _ ' ' (by decide)]
+    apply rstripBy_of_last
+    intro c hc
+    rw [getLast?_append_ne_nil _ _ (by simp)] at hc
+    simpa using h c hc
+
+
+def mlComment (first : Text) (body : List Text) (m : Nat) (doc : Bool) : Comment :=
+  { text := joinLines (first :: body), kind := .block doc (some m) }
+
+theorem canon_lines {first : Text} {body : List Text} {m : Nat} (h : CanonML first body m) :
+    splitLines (joinLines (first :: body)) = first :: body :=
+  splitLines_joinLines _ (by simp) (by
+    intro l hl
+    rcases List.mem_cons.mp hl with rfl | hl
+    · exact h.first_nl
+    · exact h.body_nl l hl)
+
+theorem canon_containsNL {first : Text} {body : List Text} {m : Nat} (h : CanonML first body m) :
+    containsNL (joinLines (first :: body)) = true := by
+  cases hb : body with
+  | nil => exact absurd hb h.body_ne
+  | cons b bs => exact containsNL_joinLines_cons_cons _ _ _
+
+theorem canon_startsWithNL {first : Text} {body : List Text} {m : Nat} (h : CanonML first body m) :
+    startsWithNL (joinLines (first :: body)) = first.isEmpty := by
+  cases hb : body with
+  | nil => exact absurd hb h.body_ne
+  | cons b bs =>
+    rw [joinLines_cons_cons]
+    cases hf : first with
+    | nil => rfl
+    | cons x xs =>
+      have : x ≠ '\n' := by
+        have := h.first_nl; rw [hf, containsNL_cons] at this; simp at this; exact this.1
+      simp [startsWithNL, this]
+
+theorem endsWithNL_joinLines_concat : ∀ (xs : List Text) (y : Text), containsNL y = false →
+    endsWithNL (joinLines (xs ++ [y])) = (!xs.isEmpty && y.isEmpty)
+  | [], y, h => by
+    simp only [List.nil_append, joinLines, List.isEmpty_nil, Bool.not_true, Bool.false_and]
+    have := getLast?_ne_nl_of_no_nl y h
+    simpa [endsWithNL] using this
+  | [x], y, h => by
+    simp only [List.cons_append, List.nil_append, joinLines]
+    cases y with
+    | nil => simp
+    | cons c cs =>
+      rw [show x ++ '\n' :: c :: cs = (x ++ ['\n']) ++ c :: cs by simp,
+        endsWithNL_append_of_ne_nil _ _ (by simp)]
+      have := getLast?_ne_nl_of_no_nl _ h
+      simpa [endsWithNL] using this
+  | x :: x' :: xs, y, h => by
+    have ih := endsWithNL_joinLines_concat (x' :: xs) y h
+    simp only [List.cons_append] at ih ⊢
+    rw [joinLines_cons_cons, show x ++ '\n' :: joinLines (x' :: (xs ++ [y])) = (x ++ ['\n']) ++ joinLines (x' :: (xs ++ [y])) by simp]
+    by_cases hj : joinLines (x' :: (xs ++ [y])) = []
+    · -- impossible only if everything is empty; then the text ends with the separator
+      rw [hj] at ih ⊢
+      simp only [List.append_nil, endsWithNL_concat]
+      simp at ih
+      cases y with
+      | nil => simp
+      | cons c cs => 
+        exfalso
+        cases xs with
+        | nil => simp [joinLines] at hj
+        | cons z zs => simp [joinLines_cons_cons] at hj
+    · rw [endsWithNL_append_of_ne_nil _ _ hj, ih]; simp
+
+/-- the shape of the rendered token of a canonical multi-line block comment -/
+theorem canon_token (first : Text) (bs : List Text) (bl : Text) (m : Nat) (doc b : Bool) (i : Nat)
+    (h : CanonML first (bs ++ [bl]) m) :
+    ({ mlComment first (bs ++ [bl]) m doc with inline := b } : Comment).token i =
+      blockOpening doc ++
+        joinLines (((if first.isEmpty then [] else [' ']) ++ first) ::
+          (bs.map (padLine (i + m)) ++ [padLine (i + m) bl ++ (if bl.isEmpty then spaces i else [' '])])) ++
+        ['*', '/'] := by
+  unfold Comment.token mlComment
+  simp only [canon_containsNL h, if_true, canon_lines h, canon_startsWithNL h, List.drop_succ_cons,
+    List.drop_zero, List.headD_cons, Option.getD_some]
+  have hends : endsWithNL (joinLines (first :: (bs ++ [bl]))) = bl.isEmpty := by
+    rw [← List.cons_append, endsWithNL_joinLines_concat _ _ (h.body_nl bl (by simp))]; simp
+  rw [hends]
+  have hfm : ((bs ++ [bl]).flatMap fun ln => if ln.isEmpty = true then ['\n'] else '\n' :: spaces (i + m) ++ ln)
+      = ((bs ++ [bl]).map (padLine (i + m))).flatMap (fun l => '\n' :: l) := by
+    rw [List.flatMap_map]
+    congr 1; funext ln
+    unfold padLine; split <;> simp
+  rw [hfm]
+  have e1 : (if first.isEmpty = true then blockOpening doc else blockOpening doc ++ [' '])
+      = blockOpening doc ++ (if first.isEmpty then [] else [' ']) := by split <;> simp
+  have e0 : (if doc = true then ['/', '*', '*'] else ['/', '*']) = blockOpening doc := rfl
+  rw [e0, e1]
+  simp only [List.append_assoc]
+  congr 1
+  have e2 : (if (!bl.isEmpty) = true then [' ', '*', '/'] else spaces i ++ ['*', '/'])
+      = (if bl.isEmpty then spaces i else [' ']) ++ ['*', '/'] := by
+    cases bl <;> simp
+  rw [e2, ← List.append_assoc, ← List.append_assoc, joinLines_flatMap, List.map_append, List.map_cons,
+    List.map_nil, ← List.cons_append, joinLines_concat_append]
+  conv => rhs; rw [← List.cons_append, joinLines_concat_append]
+  simp only [List.append_assoc]
+
+
+theorem stripSpaces_pad_first (first : Text) (h : Stripped (· == ' ') first) :
+    stripSpaces ((if first.isEmpty then [] else [' ']) ++ first) = first := by
+  rw [stripSpaces_eq_stripBy]
+  cases first with
+  | nil => rfl
+  | cons x xs =>
+    simp only [List.isEmpty_cons, Bool.false_eq_true, if_false, List.cons_append, List.nil_append]
+    unfold stripBy
+    rw [List.dropWhile_cons_of_pos (by decide)]
+    exact stripBy_of_stripped _ _ h
+
+theorem mlRestRaw_eq (a : Text) (rs : List Text) (y : Text) (ha : containsNL a = false)
+    (hrs : ∀ l ∈ rs, containsNL l = false) (hy : containsNL y = false) :
+    splitLines (joinLines (a :: (rs ++ [y]))) = a :: (rs ++ [y]) ∧
+    mlRestRaw (joinLines (a :: (rs ++ [y]))) = rs ++ [rstripSpaces y] := by
+  have hs : splitLines (joinLines (a :: (rs ++ [y]))) = a :: (rs ++ [y]) :=
+    splitLines_joinLines _ (by simp) (by
+      intro l hl
+      rcases List.mem_cons.mp hl with rfl | hl
+      · exact ha
+      · rcases List.mem_append.mp hl with hl | hl
+        · exact hrs l hl
+        · simp at hl; rw [hl]; exact hy)
+  refine ⟨hs, ?_⟩
+  unfold mlRestRaw
+  rw [hs]
+  simp
+
+theorem canon_fixed (first : Text) (bs : List Text) (bl : Text) (m : Nat) (doc b : Bool) (i : Nat)
+    (h : CanonML first (bs ++ [bl]) m) :
+    Comment.fromText i (({ mlComment first (bs ++ [bl]) m doc with inline := b } : Comment).token i)
+      = mlComment first (bs ++ [bl]) m doc := by
+  rw [canon_token first bs bl m doc b i h]
+  generalize hA : (if first.isEmpty then [] else [' ']) ++ first = A
+  generalize hy : padLine (i + m) bl ++ (if bl.isEmpty then spaces i else [' ']) = y
+  have hbl : containsNL bl = false := h.body_nl bl (by simp)
+  have hAnl : containsNL A = false := by
+    rw [← hA, containsNL_append, h.first_nl]; split <;> rfl
+  have hynl : containsNL y = false := by
+    rw [← hy, containsNL_append, containsNL_padLine _ _ hbl]; split <;> simp [containsNL_cons]
+  have hrs : ∀ l ∈ bs.map (padLine (i + m)), containsNL l = false := by
+    intro l hl
+    obtain ⟨l', hl', rfl⟩ := List.mem_map.mp hl
+    exact containsNL_padLine _ _ (h.body_nl l' (by simp [hl']))
+  obtain ⟨hsplit, hraw⟩ := mlRestRaw_eq A _ y hAnl hrs hynl
+  generalize hJ : joinLines (A :: (bs.map (padLine (i + m)) ++ [y])) = J at hsplit hraw ⊢
+  have hJnl : containsNL J = true := by
+    rw [← hJ]
+    cases hb : bs.map (padLine (i + m)) ++ [y] with
+    | nil => simp at hb
+    | cons z zs => exact containsNL_joinLines_cons_cons _ _ _
+  obtain ⟨c, s, hcs, hc⟩ : ∃ c s, J = c :: s ∧ c ≠ '*' := by
+    rw [← hJ]
+    cases hb : bs.map (padLine (i + m)) ++ [y] with
+    | nil => simp at hb
+    | cons z zs =>
+      rw [joinLines_cons_cons, ← hA]
+      cases first with
+      | nil => exact ⟨'\n', _, rfl, by decide⟩
+      | cons x xs => exact ⟨' ', _, rfl, by decide⟩
+  have hinner : blockInner (blockOpening doc ++ J ++ ['*', '/']) = J := by
+    rw [hcs]; exact blockInner_opening doc c hc s
+  have hdoc : blockDoc (blockOpening doc ++ J ++ ['*', '/']) = doc := by
+    rw [hcs, List.append_assoc, List.cons_append]; exact blockDoc_opening doc c hc _
+  rw [fromText_block _ _ (by rw [List.append_assoc]; exact startsWith_opening doc _), hinner, hdoc]
+  simp only [hJnl, if_true]
+  have hfirst : mlFirst J = first := by
+    unfold mlFirst; rw [hsplit, List.headD_cons, ← hA]; exact stripSpaces_pad_first first h.first_stripped
+  have hlast : rstripSpaces y = padLine (i + m) bl := by
+    rw [← hy]; exact rstrip_rendered_last (i + m) i bl (h.last_rstripped bl (by simp))
+  have hnorm : mlNormalized i J = (bs ++ [bl]).map (padLine m) := by
+    unfold mlNormalized
+    rw [hraw, hlast]
+    simp [List.map_append, dropPrefixIf_padLine, Function.comp_def]
+  have hbody : mlBody ((bs ++ [bl]).map (padLine m)) = bs ++ [bl] := by
+    unfold mlBody
+    rw [h.indent]
+    split
+    · rw [List.map_map]
+      conv => rhs; rw [← List.map_id (bs ++ [bl])]
+      apply List.map_congr_left
+      intro l _
+      simp [dropPrefixIf_padLine_self]
+    · have : m = 0 := by omega
+      subst this
+      conv => rhs; rw [← List.map_id (bs ++ [bl])]
+      apply List.map_congr_left
+      intro l _
+      simp [padLine_zero]
+  rw [hfirst, hnorm, hbody, h.indent]
+  rfl
+
 end Nima
